@@ -240,6 +240,8 @@ struct ReadyRecord {
     last_entry: Option<(u64, u64)>,
     // (index, term) of the snapshot in Ready
     snapshot: Option<(u64, u64)>,
+    // Whether the HardState in Ready carries a new term or vote
+    term_or_vote_changed: bool,
 }
 
 /// LightReady encapsulates the commit index, committed entries and
@@ -556,8 +558,12 @@ impl<T: Storage> RawNode<T> {
         // For more details, check raft thesis 10.2.1.
         // But nothing sent as leader of a term may be released ahead of that term's hard
         // state: a node that wins its election within a single step (a lone voter with
-        // learners) has not persisted its new term and vote yet.
-        rd.is_persisted_msg = raft.state != StateRole::Leader || term_or_vote_changed;
+        // learners) has not persisted its new term and vote yet. With asynchronous readies
+        // that hard state may belong to an earlier Ready which is still being written.
+        rd_record.term_or_vote_changed = term_or_vote_changed;
+        rd.is_persisted_msg = raft.state != StateRole::Leader
+            || term_or_vote_changed
+            || self.records.iter().any(|r| r.term_or_vote_changed);
         rd.light = self.gen_light_ready();
         self.records.push_back(rd_record);
         rd
